@@ -1,41 +1,86 @@
 #!/usr/bin/env python3
-"""Summarise seeded/<id>/runs.log into a markdown table (for DESIGN.md §9.5) and update meta.json.detected_by"""
+"""Summarise seeded/<id>/runs.log into a markdown table (DESIGN.md §9.5) and update meta.json.detected_by.
+
+Verdict of a seed = "caught" if any run (with the harness set named in the run) ended in a VIOLATION line naming a
+harness + obligation; otherwise the verdict of the LAST run (undecided / inconclusive / missed); seeds whose only
+relevant harnesses are props=ATTEMPT (out of solver reach) are listed as such. WHY explains the non-detections."""
 import os, re, json
-S="/verif/seeded"
-plan={}
+S = "/verif/seeded"
+WHY = {
+ "C01-relative-import-stdlib-name": "change is in imports.rs (module resolution); the import relation is an oracle in the solver build (C14 not applicable)",
+ "C07-imported-cache-ignores-content": "change is in the imported-fixtures cache (imports.rs); `get_imported_fixtures` is replaced by the import oracle in the solver build",
+ "C07-version-bump-only-on-nameset-change": "needs a re-analysis whose NEW text has statements (real AST: out of reach); the native fidelity gate `seed` trips on it (exit 2, INCONCLUSIVE) — not counted as a detection",
+ "C10-fresh-skips-canonicalisation": "`Path::canonicalize` is an identity stand-in in the solver build (symlinks do not exist there)",
+ "C12-lazy-index-under-read-guard": "change is in imports.rs (lazy indexing inside the import walk): oracle in the solver build",
+ "C12-plugins-cycle-fresh-visited": "change is in imports.rs (pytest_plugins cycle): oracle in the solver build",
+ "C03-docstring-dedent-ws-only-lines": "C03 not applicable (AST walk); caught natively by the ATTEMPT harness",
+ "C03-yield-line-toplevel-first": "C03 not applicable (AST walk); caught natively by the ATTEMPT harness",
+ "C17-available-first-conftest-decides": "C17 not applicable (AST walk)",
+ "C17-module-names-seeded-line0": "C17 not applicable (AST walk)",
+ "C15-line-index-cache-weak-key": "needs analyze_file on a > 256-byte document with statements (real AST)",
+ "C18-signature-end-window": "get_completion_context walks the AST; the patch no longer applies after fix 3ac243a rewrote the same lines",
+ "C11-insertion-paren-order": "harness k_insertion_bytes withdrawn (text search over lines of unknown length never reaches the SAT back end)",
+ "C11-stale-span-byte-slice": "harnesses k_stale_spans_* withdrawn (spurious std-internal counterexamples, §9.6)",
+ "C16-dfs-shared-path": "needs a three-name graph; the multi-name cycle arms exceed the memory cap (10-14 GB) — undecided, honestly reported",
+ "C08-refs-per-directory-memo": "inverse-relation arm c04_inv_sibling_first exceeds 12 GB — undecided",
+ "C04-refs-memo-before-selfref": "inverse-relation arm c04_inv_usage_above_override exceeds 12 GB — undecided",
+ "C02-refs-memo-before-selfref": "same arm as above — undecided",
+ "C20-counts-cache-before-selfref": "arm c20_unused_usage_above_override exceeds 14 GB — undecided",
+ "C05-available-imports-after-direct": "arm c05_near_import_vs_root_def exceeds 10 GB — undecided",
+ "C18-plugin-stage-admits-third-party": "arm c05_plugin_third is decided on the unchanged tree (quick tier) but ran into the wall cap with the change applied (scratch run shared the machine with two other queues)",
+ "C19-version-bump-once-per-reanalysis": "change is in analyzer.rs (version bump when definitions are RECORDED): needs a re-analysis with statements (real AST); C19 is claimed for the configuration half only",
+ "C18-available-shared-visited-across-levels": "change poisons the imported-fixtures cache through a diamond import: import walk is an oracle in the solver build",
+}
+plan = {}
 for l in open("/verif/tools/seed_plan.txt"):
-    if l.startswith("#") or not l.strip(): continue
-    seed,prop,only,tier=l.split()
-    plan[seed]=(prop,only,tier)
-rows=[]
+    if l.startswith("#") or not l.strip():
+        continue
+    seed, prop, only, tier = l.split()
+    plan[seed] = (prop, only, tier)
+rows = []
+n_caught = 0
 for sid in sorted(os.listdir(S)):
-    d=os.path.join(S,sid)
-    meta=json.load(open(os.path.join(d,"meta.json")))
-    log=os.path.join(d,"runs.log")
-    verdict="not run"; detail=""
+    d = os.path.join(S, sid)
+    meta = json.load(open(os.path.join(d, "meta.json")))
+    log = os.path.join(d, "runs.log")
+    verdict, detail = "not run", ""
     if os.path.exists(log):
-        txt=open(log).read()
-        runs=txt.split("=== ")[1:]
-        det=[];und=[];inc=[]
+        runs = open(log).read().split("=== ")[1:]
+        det = []
+        last = None
         for r in runs:
-            chk=re.search(r'check="([^"]*)" exit=(\d+)', r)
-            for m in re.finditer(r"^\s+harness=(\S+) obligation=(\S+)", r, re.M): det.append((m.group(1), m.group(2), chk.group(1) if chk else ""))
-            for m in re.finditer(r"^UNDECIDED .* harness=(\S+)", r, re.M): und.append(m.group(1))
-            for m in re.finditer(r"^INCONCLUSIVE \S+ (\S+):", r, re.M): inc.append(m.group(1))
+            chk = re.search(r'check="([^"]*)" exit=(\d+)', r)
+            d1 = [(m.group(1), m.group(2), chk.group(1) if chk else "") for m in re.finditer(r"^\s+harness=(\S+) obligation=(\S+)", r, re.M)]
+            det += d1
+            und = re.findall(r"^UNDECIDED .* harness=(\S+)", r, re.M)
+            inc = re.findall(r"^INCONCLUSIVE \S+ (.*)$", r, re.M)
+            if d1:
+                last = ("caught", "")
+            elif "patch does not apply" in r:
+                last = ("patch no longer applies", "")
+            elif inc:
+                last = ("inconclusive (exit 2)", inc[0][:80])
+            elif und:
+                last = ("undecided (cap)", ", ".join(sorted(set(und))))
+            else:
+                last = ("missed", chk.group(1) if chk else "")
         if det:
-            verdict="**caught**"; detail="; ".join(sorted({f"`{h}` ({o})" for h,o,_ in det}))
-            meta["detected_by"]=[{"harness":h,"obligation":o,"check":c} for h,o,c in det]
-        elif inc:
-            verdict="inconclusive"; detail=", ".join(sorted(set(inc)))
-        elif und:
-            verdict="undecided (cap)"; detail=", ".join(sorted(set(und)))
-        elif runs:
-            verdict="missed"; detail="ran: "+", ".join(sorted({re.search(r'check="([^"]*)"',r).group(1) for r in runs if re.search(r'check="([^"]*)"',r)}))
-    p=plan.get(sid,("","",""))
-    if p[0]=="ATTEMPT" and verdict=="not run":
-        verdict="missed (out of solver reach)"; detail=f"would need `{p[1]}` (props=ATTEMPT: real AST under the symbolic executor); the harness catches it NATIVELY via ./check --replay"
-    json.dump(meta,open(os.path.join(d,"meta.json"),"w"),indent=1)
-    rows.append((sid,meta["property"],meta["needs_to_manifest"][:110],verdict,detail))
-print("| seeded change | property | needs to manifest | verdict | by / why |")
+            verdict = "**caught**"
+            detail = "; ".join(sorted({f"`{h}` ({o})" for h, o, _ in det}))
+            meta["detected_by"] = [{"harness": h, "obligation": o, "check": c} for h, o, c in det]
+            n_caught += 1
+        elif last:
+            verdict, detail = last
+            meta["detected_by"] = None
+    p = plan.get(sid, ("", "", ""))
+    if p[0] == "ATTEMPT" and verdict in ("not run", "patch no longer applies"):
+        verdict = "missed (out of solver reach)"
+    if verdict != "**caught**" and sid in WHY:
+        detail = WHY[sid]
+    json.dump(meta, open(os.path.join(d, "meta.json"), "w"), indent=1)
+    rows.append((sid, meta["property"], meta["needs_to_manifest"][:120], verdict, detail))
+print(f"{n_caught} of {len(rows)} seeded changes are caught by a registered check (VIOLATION line, exit 1).\n")
+print("| seeded change | property | needs to manifest | verdict | by which harness (obligation) / why not |")
 print("|---|---|---|---|---|")
-for r in rows: print("| "+" | ".join(r)+" |")
+for r in rows:
+    print("| " + " | ".join(r) + " |")
